@@ -256,6 +256,14 @@ fn bytes_oracle(c: &BytesCase, info: &mut Case) -> Result<(), String> {
     if hb(&compute_data_hash(&data)) != want {
         return Err(format!("[sig:c06-data-hash] compute_data_hash differs from keyed-BLAKE3(data key) on {} bytes", data.len()));
     }
+    // the interior-node primitive is a different keyed hash of the same bytes
+    let want_internal: H = *blake3::keyed_hash(&rm::INTERNAL_KEY, &data).as_bytes();
+    if hb(&merklehash::compute_internal_node_hash(&data)) != want_internal {
+        return Err(format!("[sig:c06-internal-node-hash] compute_internal_node_hash differs from keyed-BLAKE3(internal key) on {} bytes", data.len()));
+    }
+    if !data.is_empty() && want_internal == want {
+        return Err("[sig:c06-internal-node-hash] data hash and internal-node hash of the same bytes coincide".into());
+    }
     let mut sink = Vec::new();
     let mut hw = HashedWrite::new(&mut sink);
     let mut pos = 0;
